@@ -298,12 +298,29 @@ class SpAssignOperation(Node):
                                 self.mode,
                                 l.generate_lingo(indentation))
     
+    def target_js(self, node: Node, indentation: int,
+                  factory_method: bool) -> str:
+        """
+        Javascript code of the put target: the field at the bottom of the
+        chunk chain (and only that one) is addressed through its text.
+        """
+        if isinstance(node, UnaryOperation) and node.name == 'field':
+            return node.generate_js(indentation, factory_method) + '.text'
+        if isinstance(node, StringOperation):
+            of_js = js_receiver(self.target_js(cast(Node, node.of), 0,
+                                               factory_method))
+            start_js = cast(Node, node.start).generate_js(0, factory_method)
+            if node.end is None:
+                return vsprintf('%s.%s[%s]', of_js, node.name, start_js)
+            return vsprintf('%s.%s[range(%s, %s)]', of_js, node.name,
+                    start_js,
+                    cast(Node, node.end).generate_js(0, factory_method))
+        return node.generate_js(indentation, factory_method)
+
     def generate_js(self, indentation: int, factory_method: bool) -> str:
         l = cast(Node, self.left)
         r = cast(Node, self.right)
-        left: str = l.generate_js(indentation, factory_method);
-        if re.search('field\\([^\\)]+\\)', left):
-            left = re.sub('(field\\([^\\)]+\\))', '\\1.text', left)
+        left: str = self.target_js(l, indentation, factory_method)
         
         if self.mode == 'after':
             return vsprintf("%s = new LingoString(%s + %s)", left, left,
